@@ -323,3 +323,29 @@ Definition history_check (pkg cwd : string) (kinds obs_cwds : list string) : boo
     (map fst (history (client_step sim_of_text) pkg cwd
                  (map (fun k => {| q_inp := "in.txt"; q_out := "/tmp/o.out"; q_text := k |}) kinds)))
     obs_cwds.
+
+(* ================= the report file after a history of runs =================
+   Outputs.PrintOutputs: with open(self.output_file, 'w', ...) - truncate, then write; GEOPHIRESv3.main writes the JSON
+   the same way.  A file system is a list (path, content); content = the sequence of reports in the file (their ids). *)
+Definition fsys := list (string * list N).
+Fixpoint fs_lookup (p : string) (fs : fsys) : option (list N) :=
+  match fs with [] => None | (q, c) :: r => if String.eqb p q then Some c else fs_lookup p r end.
+Fixpoint fs_set (p : string) (c : list N) (fs : fsys) : fsys :=
+  match fs with
+  | [] => [(p, c)]
+  | (q, d) :: r => if String.eqb p q then (q, c) :: r else (q, d) :: fs_set p c r
+  end.
+(* one successful run writing report [id] to path p: mode 'w' (the code) or mode 'a' (NOT the code) *)
+Definition write_report (append : bool) (fs : fsys) (run : string * N) : fsys :=
+  let '(p, id) := run in
+  fs_set p (if append then match fs_lookup p fs with Some c => c ++ [id] | None => [id] end else [id]) fs.
+Definition after_runs (append : bool) (runs : list (string * N)) : fsys := fold_left (write_report append) runs [].
+Fixpoint last_run_to (p : string) (runs : list (string * N)) : option N :=
+  match runs with
+  | [] => None
+  | (q, id) :: r => match last_run_to p r with Some x => Some x | None => if String.eqb p q then Some id else None end
+  end.
+Fixpoint nlist_eqb' (a b : list N) : bool :=
+  match a, b with [] , [] => true | x :: a', y :: b' => N.eqb x y && nlist_eqb' a' b' | _, _ => false end.
+Definition report_file_check (runs : list (string * N)) (p : string) (observed : list N) : bool :=
+  match fs_lookup p (after_runs false runs) with Some c => nlist_eqb' c observed | None => match observed with [] => true | _ => false end end.
